@@ -991,6 +991,9 @@ def _compute_delj(dx, MInt, VInt, axis=0):
         wj = 2 *MInt*dx[upslice]
         epsj = numpy.exp(wj/VInt[upslice])
         delj = (-epsj*wj + epsj * VInt[upslice] - VInt[upslice])/(wj - epsj*wj)
+        # Where exp overflowed, use the limit for epsj -> infinity (as the C kernels do)
+        # rather than the generic fallback below.
+        delj = numpy.where(numpy.isinf(epsj), 1 - VInt[upslice]/wj, delj)
         # These where statements filter out edge case for delj
         delj = numpy.where(numpy.isnan(delj), 0.5, delj)
         delj = numpy.where(numpy.isinf(delj), 0.5, delj)
